@@ -107,6 +107,7 @@ type hcellSpec struct {
 	Prime    bool        `json:"one_more_call_after_nodes_died,omitempty"` // lets go-eth2-client notice: "client is not active"
 	BodySize int         `json:"proxy_body_bytes,omitempty"`
 	Reads    []string    `json:"proxy_body_reads_per_node,omitempty"` // full | half | none (failing nodes)
+	Headers  bool        `json:"custom_beacon_node_headers_configured,omitempty"`
 }
 
 func (s *hcellSpec) fill() {
@@ -398,6 +399,13 @@ func hex32(r eth2p0.Root) string { return fmt.Sprintf("%#x", r[:]) }
 func (n *hnode) ServeHTTP(w http.ResponseWriter, r *http.Request) {
 	c := n.run
 	path := r.URL.Path
+	if c.spec.Headers {
+		if r.Header.Get("X-C19-Cell") == fmt.Sprint(c.kc.Idx) {
+			c.kc.R.Count("http/requests_carrying_the_configured_headers", 1)
+		} else {
+			c.kc.R.Count("http/requests_without_the_configured_headers", 1)
+		}
+	}
 	isInit := path == "/eth/v1/node/syncing" || path == "/eth/v1/node/version"
 	c.mu.Lock()
 	dead := n.dead
@@ -787,7 +795,14 @@ func (c *hrun) drive() error {
 	for _, n := range c.nodes[c.nP:] {
 		fall = append(fall, n.addr)
 	}
-	m, err := eth2wrap.NewMultiHTTP(nodeTimeout, [4]byte{}, nil, prim, fall)
+	// operators may configure custom request headers for their beacon nodes (--beacon-node-headers):
+	// the same client set, built through the with-headers path of the constructor
+	var headers map[string]string
+	if c.spec.Headers {
+		headers = map[string]string{"X-C19-Cell": fmt.Sprint(c.kc.Idx), "Authorization": "Basic YzE5OmMxOQ=="}
+		c.kc.R.Count("http/cells_with_custom_headers", 1)
+	}
+	m, err := eth2wrap.NewMultiHTTP(nodeTimeout, [4]byte{}, headers, prim, fall)
 	if err != nil {
 		return err
 	}
@@ -1348,6 +1363,7 @@ func (c *hrun) evaluate() {
 }
 
 func runHTTPCell(kc *kit.Case, spec *hcellSpec) {
+	spec.Headers = kc.R.Rand(kc.Idx, 11).Intn(2) == 0
 	spec.fill()
 	c, err := newHRun(kc, spec)
 	if err != nil {
